@@ -21,7 +21,7 @@ from ..front_py import AnalysisError, walk_local, norm, dotted
 from ..effects import Unsupported
 from ..dataflow import Provenance
 from ..front_lark import Grammar, mini_schema
-from .codec_py import (ENC, DEC, find_cursor_class, Prims, parser_type_classes, find_dispatcher, grammar_of, canon_effects, CANON, CANON_DEC, dispatcher_bypasses)
+from .codec_py import (ENC, DEC, find_cursor_class, Prims, parser_type_classes, find_dispatcher, grammar_of, canon_effects, CANON, CANON_DEC, dispatcher_bypasses, validation_guards)
 from .C01 import r015
 
 
@@ -69,6 +69,8 @@ def run(eng, rep) -> None:
                 rep.undecided("R02.1", d.file, d.qual, "Eff_%s(%s)" % (side, kn), "handler reads/writes elements directly for some element classes (dispatcher bypass): [%s]; value effect decided by C01 R01.8" % g[:120])
                 continue
             rep.check(g == want, "R02.1", d.file, d.qual, "Eff_%s(%s)" % (side, kn), "= canonical %s" % want, "%s performs [%s], canonical wire format is [%s]" % ("encoder" if side == "enc" else "decoder", g, want))
+            for vg in validation_guards(effs):
+                rep.undecided("R02.1", d.file, d.qual, "Eff_%s(%s): guard that only raises: %s" % (side, kn, vg), "input validation is not part of the wire grammar; that it never rejects a canonical encoding / an in-range value is decided only for the forms of R02.7 and C16")
     for v, tag, m, construct, detail in pr.findings:
         if tag == "bitmap":
             (rep.ok if v == "ok" else rep.violation if v == "violation" else rep.undecided)("R02.2", m.file, m.qual, construct, detail)
